@@ -150,16 +150,29 @@ def check(run):
                         good += 1                 # a null pointer aliases nothing
                         continue
                     roots = set()
-                    for x in ir.walk(src):
-                        t = x.get("t") or ""
-                        is_ptr = t.endswith("*") or "[" in t
-                        if x.get("k") == "Member" and x.get("field") and is_ptr:
-                            p = path(x)
-                            if p and p[0] == "this":
-                                roots.add(p[1])
-                        if x.get("k") == "Ref" and x.get("d") in ("param", "global", "local") and is_ptr:
-                            roots.add("<%s %s>" % (x.get("d"), x.get("n")))
-                    own_arrays = {g["n"] for g in r["fields"] if "[" in g["t"]} | {fld["n"]} | {g["n"] for g in r["fields"] if g.get("ptr")}
+                    envs_ = ir.Env(f["body"]) if f.get("body") is not None else None
+
+                    def add_roots(e_, depth=0):
+                        for x in ir.walk(e_):
+                            t = x.get("t") or ""
+                            is_ptr = t.endswith("*") or "[" in t
+                            if x.get("k") == "Member" and x.get("field"):
+                                p = path(x)
+                                if p and p[0] == "this" and (is_ptr or depth > 0 or addr_of):
+                                    roots.add(p[1])
+                            if x.get("k") == "Ref" and x.get("d") in ("param", "global", "local"):
+                                lp_ = path(x)
+                                d_ = envs_.defs.get(lp_[0]) if (envs_ is not None and lp_ and x.get("d") == "local") else None
+                                if d_ is not None and depth < 3:
+                                    # a local reference / pointer: what it was bound to
+                                    add_roots(d_, depth + 1)
+                                elif is_ptr or (addr_of and depth == 0) or (depth > 0 and t.endswith("&")):
+                                    roots.add("<%s %s>" % (x.get("d"), x.get("n")))
+                    addr_of = isinstance(u_src, dict) and u_src.get("k") == "Un" and u_src.get("op") == "&"
+                    add_roots(src)
+                    # (pointing into a member of the same object - an array, a container - shares nothing with another instance;
+                    # whether the pointer survives what happens to that member is C19's and C03's business)
+                    own_arrays = {g["n"] for g in r["fields"]}
                     if roots and roots <= own_arrays:
                         good += 1
                     else:
